@@ -100,11 +100,11 @@ def check_program(spec, col, depths, meta):
         cdc = built["codec"][1]
         multi = sum(1 for s in U.walk(spec) if s["k"] == "class") >= 2
         container = U.strip(spec)["k"] != "class" or any(s["k"] in ("list", "dict", "vtuple") for s in U.walk(spec))
-        for d in depths:
+        for d, falsy in [(d_, f_) for d_ in depths for f_ in ((False, True) if d_ <= 3 else (False,))]:
             if col.out_of_time():
                 return
             try:
-                v = U.deep_value(spec, mat, d)
+                v = U.deep_value(spec, mat, d, falsy=falsy)
                 U.plain_wire(spec, v, mat)
             except U._Stop:
                 continue
@@ -113,11 +113,13 @@ def check_program(spec, col, depths, meta):
                 continue
             col.ev()
             col.label(f"depth:{d}")
+            if falsy:
+                col.label("leaves:falsy")
             if d >= 2 and (container or multi):
                 col.nt(f"{mat.source()}|{d}")
                 if d == 3:
                     col.sample({"program": mat.source()[:600], "depth": d, "value": U.to_src(v, mat)[:300]})
-            case = dict(case0, depth=d)
+            case = dict(case0, depth=d, falsy=falsy)
             w = U.plain_wire(spec, v, mat)
             km, m = tl.call(tl.marshal, v, t=T)
             soft = d >= SOFT_FROM
